@@ -426,6 +426,9 @@ func (ctx drawContext) drawBackground(bg *bo.Background, clipBox bool, bleed bo.
 			})
 		}
 
+		// the marks are drawn as one more layer, without touching the laid-out
+		// box: a page may be painted more than once
+		layers := bg.Layers
 		if (bleed != bo.Bleed{}) && !marks.IsNone() {
 			x, y, width, height := bg.Layers[len(bg.Layers)-1].PaintingArea.Unpack()
 			svg := headerSVG
@@ -464,10 +467,10 @@ func (ctx drawContext) drawBackground(bg *bo.Background, clipBox bool, bleed bo.
 				Image: image, Size: size, Position: position, Repeat: repeat, Unbounded: unbounded,
 				PaintingArea: paintingArea, PositioningArea: positioningArea,
 			}
-			bg.Layers = append([]bo.BackgroundLayer{layer}, bg.Layers...)
+			layers = append([]bo.BackgroundLayer{layer}, layers...)
 		}
 		// Paint in reversed order: first layer is "closest" to the viewer.
-		for _, layer := range reversed(bg.Layers) {
+		for _, layer := range reversed(layers) {
 			ctx.drawBackgroundImage(layer, bg.ImageRendering)
 		}
 	})
